@@ -76,6 +76,18 @@ class _StrMeta(type):
     def __call__(cls, *a, **k):
         return sh_str(*a, **k)
 
+    def __getattr__(cls, name):
+        # str.maketrans, str.join, str.lower ... : class attributes of the real type; an unbound method called with an abstract value
+        # dispatches to that value's own method
+        real = getattr(builtins.str, name)
+        if callable(real) and not isinstance(builtins.str.__dict__.get(name), builtins.staticmethod):
+            def unbound(self, *a, **k):
+                if builtins.isinstance(self, builtins.str):
+                    return real(self, *a, **k)
+                return getattr(self, name)(*a, **k)
+            return unbound
+        return real
+
 
 class StrLike(metaclass=_StrMeta):
     """stands in for `str` (callable and isinstance target)"""
@@ -87,6 +99,16 @@ class _BytesMeta(type):
 
     def __call__(cls, *a, **k):
         return builtins.bytes(*a, **k)
+
+    def __getattr__(cls, name):
+        real = getattr(builtins.bytes, name)
+        if callable(real) and not isinstance(builtins.bytes.__dict__.get(name), (builtins.staticmethod, builtins.classmethod)):
+            def unbound(self, *a, **k):
+                if builtins.isinstance(self, builtins.bytes):
+                    return real(self, *a, **k)
+                return getattr(self, name)(*a, **k)
+            return unbound
+        return real
 
 
 class BytesLike(metaclass=_BytesMeta):
@@ -120,6 +142,8 @@ def nondet_int_of_text(src, lo, hi, L):
                     break
     if key is None:
         ex = core.cur()
+        if not isinstance(L, int):
+            L = ex.concretize(L, limit=12)
         ok = ex.fresh_bool('int_ok_%s' % src.name)
         val = ex.fresh_int('int_val_%s' % src.name, named=True)
         for k in getattr(src, 'isdig', {}):
@@ -128,6 +152,7 @@ def nondet_int_of_text(src, lo, hi, L):
         if key is None:
             key = (lo, hi)
         src.ints[key] = (ok, val)
+        _link_chars(src, key, L)
     ok, val = src.ints[key]
     if isinstance(L, int) and L <= 0:
         raise ValueError("invalid literal for int() with base 10: ''")
@@ -142,6 +167,100 @@ def nondet_int_of_text(src, lo, hi, L):
     core.assume(val >= -(10 ** (L - 1) - 1))
     _link_int_isdigit(src, key, L)
     return val
+
+
+_INT_WS = (9, 10, 11, 12, 13, 28, 29, 30, 31, 32, 133, 160)
+_SUPERSCRIPTS = (0xb2, 0xb3, 0xb9)
+_SHAPES = {}
+CHAR_LINK_MAX = 4
+
+
+def _int_shapes(L):
+    """all class strings over W(hitespace) S(ign) D(igit) U(nderscore) of length L that int() accepts:  W* S? D (U? D)* W*"""
+    if L not in _SHAPES:
+        import itertools
+        pat = _re.compile(r'W*S?D(U?D)*W*')
+        _SHAPES[L] = [''.join(t) for t in itertools.product('WSDU', repeat=L) if pat.fullmatch(''.join(t))]
+    return _SHAPES[L]
+
+
+def _raw_classes(kind, chain):
+    """per character class: the raw element values (before the codec chain) that land in it"""
+    tab = rope._chain_table(kind, chain) if chain else list(builtins.range(256))
+    if tab is None:
+        return None
+    inv = {}
+    for r, c in enumerate(tab):
+        inv.setdefault(c, []).append(r)
+    digits = [inv.get(48 + d, []) for d in builtins.range(10)]
+    if builtins.any(builtins.len(x) != 1 for x in digits):
+        return None
+    digits = [x[0] for x in digits]
+    return {'digits': digits, 'W': [r for c in _INT_WS for r in inv.get(c, [])], 'plus': inv.get(43, []), 'minus': inv.get(45, []),
+            'U': inv.get(95, []), 'sup': [r for c in _SUPERSCRIPTS for r in inv.get(c, [])]}
+
+
+def _link_chars(src, key, L):
+    """short numerals (up to CHAR_LINK_MAX characters, the length prefixes): the nondeterministic outcome of int() / isdigit() is tied
+    to the individual characters (peek table) by int()'s grammar, so that a sign, a blank or an underscore that the code inspects
+    separately is the one the numeral contains -- and the witness is the text the model describes."""
+    if not (isinstance(L, builtins.int) and 0 < L <= CHAR_LINK_MAX) or getattr(src, 'base', None) is None:
+        return
+    done = src.__dict__.setdefault('char_linked', set())
+    todo_int = key in src.ints and (key, 'int') not in done
+    todo_dig = key in getattr(src, 'isdig', {}) and (key, 'dig') not in done
+    if not (todo_int or todo_dig):
+        return
+    raw_src, chain = src.base
+    cls = _raw_classes(raw_src.kind, chain)
+    if cls is None:
+        return
+    lo = key[0]
+    raws = [raw_src.peek(lo + i, ()) for i in builtins.range(L)]
+    dg = cls['digits']
+    contiguous = builtins.all(dg[d] == dg[0] + d for d in builtins.range(10))
+
+    def is_in(r, vals):
+        return core.s_or(*[core.s_eq(r, v) for v in vals]) if vals else False
+
+    def is_digit(r):
+        return s_and(r >= dg[0], r <= dg[9]) if contiguous else is_in(r, dg)
+
+    def digit_val(r):
+        if contiguous:
+            return r - dg[0]
+        v = 0
+        for d in builtins.range(1, 10):
+            v = core.s_ite(core.s_eq(r, dg[d]), d, v)
+        return v
+    if todo_int:
+        done.add((key, 'int'))
+        ok, val = src.ints[key]
+        conds = []
+        for shape in _int_shapes(L):
+            cs = []
+            mag = 0
+            neg = False
+            for r, c in zip(raws, shape):
+                if c == 'D':
+                    cs.append(is_digit(r))
+                    mag = mag * 10 + digit_val(r)
+                elif c == 'W':
+                    cs.append(is_in(r, cls['W']))
+                elif c == 'U':
+                    cs.append(is_in(r, cls['U']))
+                else:
+                    cs.append(is_in(r, cls['plus'] + cls['minus']))
+                    neg = is_in(r, cls['minus'])
+            cond = s_and(*cs)
+            value = mag if neg is False else core.s_ite(neg, 0 - mag, mag)
+            conds.append(cond)
+            core.assume(core.s_implies(cond, core.s_eq(val, value)))
+        core.assume(core.s_iff(ok, core.s_or(*conds)))
+    if todo_dig:
+        done.add((key, 'dig'))
+        alld = s_and(*[core.s_or(is_digit(r), is_in(r, cls['sup'])) for r in raws])
+        core.assume(core.s_iff(src.isdig[key], alld))
 
 
 def _link_int_isdigit(src, key, L):
@@ -182,7 +301,41 @@ def nondet_isdigit(src, lo, hi, L):
     if L <= 0:
         return False
     _link_int_isdigit(src, key, L)
+    _link_chars(src, key, L)
     return src.isdig[key]
+
+
+def _digit_fields(ps):
+    """[(value, width)] when every piece is made of decimal digits whose value is known symbolically (date tokens and fragments of
+    them on directive boundaries, ASCII digit literals); None otherwise"""
+    out = []
+    for p in ps:
+        if isinstance(p, Lit):
+            if isinstance(p.v, builtins.str) and p.v.isascii() and p.v.isdigit():
+                out.append((builtins.int(p.v), builtins.len(p.v)))
+                continue
+            return None
+        base, a, b = (p.base, p.a, p.b) if isinstance(p, Frag) else (p, 0, None)
+        if isinstance(p, Frag) and p.chain:
+            return None
+        if isinstance(base, Tok) and not base.chain:
+            lay = date_layout(base.fmt)
+            if lay is None:
+                return None
+            if b is None:
+                b = base.width
+            if not (isinstance(a, builtins.int) and isinstance(b, builtins.int)):
+                a = core.cur().concretize(a, limit=32)
+                b = core.cur().concretize(b, limit=32)
+            for off, w, d, lit in lay:
+                if off + w <= a or off >= b:
+                    continue
+                if d is None or off < a or off + w > b:
+                    return None
+                out.append((base.d.directive_value(d), w))
+            continue
+        return None
+    return out
 
 
 def rope_isdigit(val):
@@ -190,6 +343,20 @@ def rope_isdigit(val):
     if conc is not None:
         return conc.isdigit()
     ps = rope.nonempty_pieces(val)
+    if builtins.any(isinstance(p, Tok) or (isinstance(p, Frag) and isinstance(p.base, Tok)) for p in ps):
+        if not ps:
+            return False
+        if _digit_fields(ps) is not None:
+            return True
+        # a date token with literal characters or cut inside a field
+        if builtins.all(isinstance(p, (Tok, Lit)) for p in ps):
+            for p in ps:
+                if isinstance(p, Lit) and not p.v.isdigit():
+                    return False
+                if isinstance(p, Tok):
+                    lay = date_layout(p.fmt)
+                    if lay is not None and builtins.any(d is None for _, _, d, _ in lay):
+                        return False
     if len(ps) == 1 and isinstance(ps[0], Opq):
         p = ps[0]
         return nondet_isdigit(_derived(p), p.lo, p.hi, p.length())
@@ -221,6 +388,13 @@ def sh_int(val=0, base=10):
         if len(ps) == 1 and isinstance(ps[0], Opq):
             p = ps[0]
             return nondet_int_of_text(_derived(p), p.lo, p.hi, p.length())
+        if builtins.any(isinstance(p, Tok) or (isinstance(p, Frag) and isinstance(p.base, Tok)) for p in ps):
+            fs = _digit_fields(ps)
+            if fs is not None and fs:
+                v = 0
+                for x, w in fs:
+                    v = v * 10 ** w + x
+                return v
         # mixed content: literal characters plus opaque ones -> nondeterministic as a whole
         for p in ps:
             if isinstance(p, Lit):
@@ -242,6 +416,16 @@ class _IntMeta(type):
 
     def __call__(cls, *a, **k):
         return sh_int(*a, **k)
+
+    def __getattr__(cls, name):
+        real = getattr(builtins.int, name)
+        if callable(real) and not isinstance(builtins.int.__dict__.get(name), (builtins.staticmethod, builtins.classmethod)):
+            def unbound(self, *a, **k):
+                if builtins.isinstance(self, builtins.int):
+                    return real(self, *a, **k)
+                return getattr(self, name)(*a, **k)
+            return unbound
+        return real
 
 
 class IntLike(metaclass=_IntMeta):
@@ -433,8 +617,37 @@ class StructStub:
                 if isinstance(p, Opq):
                     return (p.src.peek(p.lo, p.chain),)
                 raise Unsupported('unpack B of %r' % (p,))
+            m = _re.fullmatch(r'([<>!=@]?)([bBhH])', fmt)
+            if m:
+                # one small integer: composed from the individual bytes (peek table), two's complement for the signed codes
+                size = 1 if m.group(2) in 'bB' else 2
+                if not (s_eq(data.length(), size)):
+                    raise _struct.error('unpack requires a buffer of %d bytes' % size)
+                bs = [sh_getitem(data, k) for k in builtins.range(size)]
+                if m.group(1) in ('<', '=', '@', '') and size == 2:
+                    bs.reverse()
+                v = 0
+                for b in bs:
+                    v = v * 256 + b
+                if m.group(2) in 'bh':
+                    half = 1 << (8 * size - 1)
+                    if isinstance(v, SInt):
+                        v = core.s_ite(v >= half, v - 2 * half, v)
+                    elif v >= half:
+                        v -= 2 * half
+                return (v,)
             raise Unsupported('struct.unpack(%r) on abstract bytes' % (fmt,))
         return _struct.unpack(fmt, data)
+
+    @staticmethod
+    def unpack_from(fmt, buffer, offset=0):
+        if isinstance(buffer, Rope) and isinstance(fmt, builtins.str):
+            size = _struct.calcsize(fmt)
+            n = sh_len(buffer)
+            if not (s_and(offset >= 0, offset + size <= n)):
+                raise _struct.error('unpack_from requires a buffer of at least %d bytes for unpacking %d bytes at offset' % (size, size))
+            return StructStub.unpack(fmt, sh_getitem(buffer, slice(offset, offset + size)))
+        return _struct.unpack_from(fmt, buffer, offset)
 
     @staticmethod
     def _split(sizes, data):
@@ -478,6 +691,29 @@ class StructStub:
         core.note('imprecise', 'u32 read from mixed pieces %r: arbitrary value' % (ps,))
         v = core.cur().fresh_int('u32_mixed', 0, 0xFFFFFFFF)
         return v
+
+
+core.PATH_RESET.append(lambda: ABSTRACT_BITMAPS.__setitem__(0, False))
+ABSTRACT_BITMAPS = [False]     # a harness that wants bitmaps of arbitrary bits (one fork per bit) switches this on for its paths
+
+
+def bits_of(data, endian='big'):
+    """model of BitArray.tolist for abstract bytes: one truth value per bit, most significant bit of each byte first ('big')"""
+    if isinstance(data, Rope) and not ABSTRACT_BITMAPS[0]:
+        raise Unsupported('bit list of an abstract bitmap')
+    n = sh_len(data)
+    if not isinstance(n, builtins.int):
+        n = core.cur().concretize(n, limit=64)
+    out = []
+    for i in builtins.range(n):
+        b = sh_getitem(data, i)
+        order = builtins.range(7, -1, -1) if endian == 'big' else builtins.range(8)
+        for k in order:
+            if isinstance(b, SInt):
+                out.append(core.s_eq((b // (1 << k)) % 2, 1))
+            else:
+                out.append(bool((b >> k) & 1))
+    return out
 
 
 def _first_nonempty(r):
@@ -683,17 +919,100 @@ class BinasciiStub:
 
 # ------------------------------------------------------------------ datetime
 
+_DIRECTIVES = {'y': 2, 'Y': 4, 'm': 2, 'd': 2, 'H': 2, 'M': 2, 'S': 2}
+_COMPS = ('Y', 'm', 'd', 'H', 'M', 'S')
+_DEFAULTS = {'Y': 1900, 'm': 1, 'd': 1, 'H': 0, 'M': 0, 'S': 0}
+
+
+def date_layout(fmt):
+    """[(offset, width, directive or None, literal)] of a strftime format made of fixed-width numeric directives and literal
+    characters; None when the format contains anything else"""
+    out = []
+    i = 0
+    off = 0
+    while i < builtins.len(fmt):
+        ch = fmt[i]
+        if ch == '%':
+            if i + 1 >= builtins.len(fmt):
+                return None
+            d = fmt[i + 1]
+            if d == '%':
+                out.append((off, 1, None, '%'))
+                off += 1
+            elif d in _DIRECTIVES:
+                out.append((off, _DIRECTIVES[d], d, None))
+                off += _DIRECTIVES[d]
+            else:
+                return None
+            i += 2
+        else:
+            out.append((off, 1, None, ch))
+            off += 1
+            i += 1
+    return out
+
+
 class SymDate:
-    """an opaque datetime value"""
+    """a symbolic datetime: six integer components.  `fmt` (when given) names the strftime format the value has to be representable
+    in: components the format does not carry are at the values strptime would give them, a two-digit year lies in CPython's window
+    1969..2068"""
     _is_symdate = True
 
-    def __init__(self, name):
+    def __init__(self, name, fmt=None, comps=None):
         self.name = name
+        if comps is not None:
+            self.c = dict(comps)
+            return
+        ex = core.cur()
+        present = None
+        if fmt is not None:
+            lay = date_layout(fmt)
+            present = {d for _, _, d, _ in lay if d} if lay is not None else None
+        c = {}
+
+        def has(*ds):
+            return present is None or builtins.any(d in present for d in ds)
+        if has('y', 'Y'):
+            if present is not None and 'Y' in present and 'y' not in present:
+                c['Y'] = ex.fresh_int(name + '_Y', 1000, 9999)
+            else:
+                c['Y'] = ex.fresh_int(name + '_Y', 1969, 2068)
+        for k, lo, hi in (('m', 1, 12), ('d', 1, 31), ('H', 0, 23), ('M', 0, 59), ('S', 0, 59)):
+            if has(k):
+                c[k] = ex.fresh_int('%s_%s' % (name, k), lo, hi)
+        for k in _COMPS:
+            c.setdefault(k, _DEFAULTS[k])
+        self.c = c
+        self._assume_valid_day()
+
+    def _assume_valid_day(self):
+        d, m, Y = self.c['d'], self.c['m'], self.c['Y']
+        if isinstance(d, SInt):
+            core.assume(_day_ok(Y, m, d))
+
+    # -- components
+    year = property(lambda self: self.c['Y'])
+    month = property(lambda self: self.c['m'])
+    day = property(lambda self: self.c['d'])
+    hour = property(lambda self: self.c['H'])
+    minute = property(lambda self: self.c['M'])
+    second = property(lambda self: self.c['S'])
+    microsecond = 0
+    tzinfo = None
+
+    def directive_value(self, d):
+        if d == 'y':
+            return self.c['Y'] % 100
+        return self.c[d]
+
+    def concrete(self, ev):
+        return _datetime.datetime(*[ev(self.c[k]) for k in _COMPS])
 
     def render(self, fmt, ev):
-        # any representable date works: use a fixed one per name for witnesses
-        base = _datetime.datetime(2021, 3, 4, 5, 6, 7)
-        return base.strftime(fmt)
+        return self.concrete(ev).strftime(fmt)
+
+    def witness(self, ev):
+        return {'date': [ev(self.c[k]) for k in _COMPS]}
 
     def __sformat__(self, spec):
         width = builtins.len(_datetime.datetime(2021, 12, 13, 14, 15, 16).strftime(spec))
@@ -702,8 +1021,153 @@ class SymDate:
     def strftime(self, fmt):
         return self.__sformat__(fmt)
 
+    def isoformat(self, sep='T'):
+        return self.__sformat__('%Y-%m-%d' + sep + '%H:%M:%S')
+
+    def __str__(self):
+        return self.isoformat(' ')
+
+    def replace(self, **kw):
+        names = {'year': 'Y', 'month': 'm', 'day': 'd', 'hour': 'H', 'minute': 'M', 'second': 'S'}
+        c = dict(self.c)
+        for k, v in kw.items():
+            if k not in names:
+                raise Unsupported('datetime.replace(%s=...)' % k)
+            c[names[k]] = v
+        return SymDate(self.name + "'", comps=c)
+
+    def _comps_of(self, o):
+        if isinstance(o, SymDate):
+            return [o.c[k] for k in _COMPS]
+        if isinstance(o, _datetime.datetime):
+            if o.microsecond or o.tzinfo is not None:
+                return None
+            return [o.year, o.month, o.day, o.hour, o.minute, o.second]
+        return None
+
+    def __eq__(self, o):
+        if o is self:
+            return True
+        oc = self._comps_of(o)
+        if oc is None:
+            return False
+        return s_and(*[core.s_eq(a, b) for a, b in zip([self.c[k] for k in _COMPS], oc)])
+
+    def __ne__(self, o):
+        return core.s_not(self.__eq__(o))
+
+    def _key(self, comps):
+        v = 0
+        for x, mul in zip(comps, (12, 32, 24, 60, 60, 1)):
+            v = (v + x) * mul if mul != 1 else v + x
+        return v
+
+    def __lt__(self, o):
+        oc = self._comps_of(o)
+        if oc is None:
+            return NotImplemented
+        return self._key([self.c[k] for k in _COMPS]) < self._key(oc)
+
+    def __le__(self, o):
+        oc = self._comps_of(o)
+        if oc is None:
+            return NotImplemented
+        return self._key([self.c[k] for k in _COMPS]) <= self._key(oc)
+
+    def __gt__(self, o):
+        oc = self._comps_of(o)
+        if oc is None:
+            return NotImplemented
+        return self._key([self.c[k] for k in _COMPS]) > self._key(oc)
+
+    def __ge__(self, o):
+        oc = self._comps_of(o)
+        if oc is None:
+            return NotImplemented
+        return self._key([self.c[k] for k in _COMPS]) >= self._key(oc)
+
+    def __hash__(self):
+        return builtins.id(self)
+
     def __repr__(self):
         return 'SymDate(%s)' % self.name
+
+
+def _day_ok(Y, m, d):
+    """d is a valid day of month m in year Y (Gregorian)"""
+    leap = s_and(core.s_eq(Y % 4, 0), core.s_or(core.s_not(core.s_eq(Y % 100, 0)), core.s_eq(Y % 400, 0))) if isinstance(Y, SInt) else \
+        (Y % 4 == 0 and (Y % 100 != 0 or Y % 400 == 0))
+    is30 = core.s_or(*[core.s_eq(m, k) for k in (4, 6, 9, 11)])
+    isfeb = core.s_eq(m, 2)
+    return s_and(d >= 1, d <= 31, core.s_implies(is30, d <= 30), core.s_implies(isfeb, d <= 29),
+                 core.s_implies(s_and(isfeb, core.s_not(leap)), d <= 28))
+
+
+def dates_equal(a, b):
+    """harness helper: equality of two datetime values of which at least one is symbolic"""
+    if a is b:
+        return True
+    if isinstance(a, SymDate):
+        return a.__eq__(b)
+    if isinstance(b, SymDate):
+        return b.__eq__(a)
+    return a == b
+
+
+def _parse_tok(at, fmt):
+    """strptime(strftime(d, at.fmt), fmt) on the token itself"""
+    d = at.d
+    if at.fmt != fmt:
+        src = date_layout(at.fmt)
+        dst = date_layout(fmt)
+        if src is None or dst is None:
+            raise ValueError('time data does not match format [abstract token, other format]')
+        # other format: position by position; every directive of `fmt` has to read exactly one directive field of the token
+        fields = {off: (w, dd, lit) for off, w, dd, lit in src}
+        vals = {}
+        for off, w, dd, lit in dst:
+            f = fields.get(off)
+            if f is None or f[0] != w:
+                raise Unsupported('strptime of a date token with a differently laid out format')
+            if dd is None:
+                if f[1] is not None or f[2] != lit:
+                    raise ValueError('time data does not match format')
+                continue
+            if f[1] is None:
+                raise ValueError('time data does not match format')
+            vals[dd] = d.directive_value(f[1]) if f[1] != dd else d.directive_value(dd)
+        if builtins.sum(w for _, w, _, _ in dst) != builtins.sum(w for _, w, _, _ in src):
+            raise ValueError('unconverted data remains')
+    else:
+        lay = date_layout(fmt)
+        if lay is None:
+            return d           # formats outside the numeric model: opaque token, identity (representable dates assumed)
+        vals = {dd: d.directive_value(dd) for _, _, dd, _ in lay if dd}
+    c = {}
+    if 'Y' in vals:
+        c['Y'] = vals['Y']
+    elif 'y' in vals:
+        yy = vals['y']
+        c['Y'] = core.s_ite(yy >= 69, 1900 + yy, 2000 + yy) if isinstance(yy, SInt) else (1900 + yy if yy >= 69 else 2000 + yy)
+    for k in ('m', 'd', 'H', 'M', 'S'):
+        if k in vals:
+            c[k] = vals[k]
+    for k in _COMPS:
+        c.setdefault(k, _DEFAULTS[k])
+    # range checks strptime performs
+    for k, lo, hi in (('m', 1, 12), ('d', 1, 31), ('H', 0, 23), ('M', 0, 59), ('S', 0, 61)):
+        v = c[k]
+        if not (s_and(v >= lo, v <= hi)):
+            raise ValueError('time data does not match format')
+    if not (_day_ok(c['Y'], c['m'], c['d'])):
+        raise ValueError('day is out of range for month')
+    # the same value again (the usual case): hand the original object back, so that identity-based reasoning keeps working
+    if builtins.all(core.same_int(c[k], d.c[k]) for k in _COMPS):
+        return d
+    eq = s_and(*[core.s_eq(c[k], d.c[k]) for k in _COMPS])
+    if core.cur().must(eq):
+        return d
+    return SymDate(d.name + '~', comps=c)
 
 
 class _DTMeta(type):
@@ -711,6 +1175,21 @@ class _DTMeta(type):
         return builtins.isinstance(obj, (_datetime.datetime, SymDate))
 
     def __call__(cls, *a, **k):
+        names = ('year', 'month', 'day', 'hour', 'minute', 'second')
+        vals = list(a[:6]) + [None] * (6 - builtins.len(a[:6]))
+        for i, nm in enumerate(names):
+            if nm in k:
+                vals[i] = k[nm]
+        if builtins.any(isinstance(v, SInt) for v in vals) and builtins.len(a) <= 6 and not (set(k) - set(names)):
+            if vals[0] is None or vals[1] is None or vals[2] is None:
+                raise TypeError('function missing required argument')
+            vals = [0 if v is None else v for v in vals]
+            for v, lo, hi, what in zip(vals, (1, 1, 1, 0, 0, 0), (9999, 12, 31, 23, 59, 59), names):
+                if not (s_and(v >= lo, v <= hi)):
+                    raise ValueError('%s is out of range' % what)
+            if not (_day_ok(vals[0], vals[1], vals[2])):
+                raise ValueError('day is out of range for month')
+            return SymDate(core.cur()._uniq('built_date'), comps=dict(zip(_COMPS, vals)))
         return _datetime.datetime(*a, **k)
 
 
@@ -720,9 +1199,7 @@ class DateTimeLike(metaclass=_DTMeta):
         if isinstance(text, Rope):
             at = rope.whole_atom(text)
             if isinstance(at, Tok) and not at.chain:
-                if at.fmt == fmt:
-                    return at.d
-                raise ValueError('time data does not match format [abstract token, other format]')
+                return _parse_tok(at, fmt)
             # abstract text: nondeterministic -- ValueError or some opaque datetime (memoised per text slice)
             ex = core.cur()
             memo = ex.__dict__.setdefault('_strptime_memo', [])
@@ -735,7 +1212,7 @@ class DateTimeLike(metaclass=_DTMeta):
                         raise ValueError('time data does not match format [abstract]')
                     return res
             ok = ex.fresh_bool('strptime_ok')
-            res = SymDate(ex._uniq('parsed_date')) if ok else None
+            res = SymDate(ex._uniq('parsed_date'), fmt=fmt) if ok else None
             memo.append((text, fmt, res))
             if res is None:
                 raise ValueError('time data does not match format [abstract]')
